@@ -100,6 +100,10 @@ class DictProxy(dict):
         super().__setitem__(key, value)
 
     def _ref_path(self, key: str) -> str:
+        cfg_path = getattr(self.cfg, "_ref_path", "")
+        if isinstance(cfg_path, str) and cfg_path:
+            # the path of the owning configuration (config types and list items have no schema path)
+            return "%s.%s[%s]" % (cfg_path, self.dict_field._key, key)
         return "%s[%s]" % (self.dict_field._ref_path, key)
 
     def _validate(self, key: Any, value: Any) -> Tuple[Any, Any]:
